@@ -137,6 +137,7 @@ type CertSpec struct {
 	Extra        []pkix.Extension
 	IssuerName   *pkix.Name // override the issuer name (nil: parent's subject)
 	EmptySubject bool       // empty subject DN, identity in a critical subjectAltName (RFC 5280 4.1.2.6)
+	EKUFirst     bool       // the extended key usage extension is the certificate's first extension (before key usage)
 	SKI          []byte     // subject key identifier (nil: derived from the key by crypto/x509 for CA certificates)
 	AKI          []byte     // authority key identifier of a self-issued certificate (nil: none; issued certificates carry the parent's subject key identifier)
 }
@@ -232,6 +233,15 @@ func Issue(spec CertSpec, parent *Cert, signKey crypto.Signer) *Cert {
 			tmpl.MaxPathLen = -1
 		}
 	}
+	if spec.EKUFirst && len(spec.EKU) > 0 {
+		var oids []asn1.ObjectIdentifier
+		for _, e := range spec.EKU {
+			oids = append(oids, ekuOIDs[e])
+		}
+		if v, err := asn1.Marshal(oids); err == nil {
+			tmpl.ExtraExtensions = append(tmpl.ExtraExtensions, pkix.Extension{Id: oidEKU, Critical: spec.EKUExt == ExtCritical, Value: v})
+		}
+	}
 	if spec.KUExt != ExtAbsent {
 		v, err := asn1.Marshal(kuBits(spec.KU))
 		if err != nil {
@@ -239,7 +249,7 @@ func Issue(spec CertSpec, parent *Cert, signKey crypto.Signer) *Cert {
 		}
 		tmpl.ExtraExtensions = append(tmpl.ExtraExtensions, pkix.Extension{Id: oidKU, Critical: spec.KUExt == ExtCritical, Value: v})
 	}
-	if len(spec.EKU) > 0 {
+	if len(spec.EKU) > 0 && !spec.EKUFirst {
 		var oids []asn1.ObjectIdentifier
 		for _, e := range spec.EKU {
 			oids = append(oids, ekuOIDs[e])
